@@ -487,5 +487,4 @@ KNOWN_BRITTLE = {
     ("ben-C13-3", "C13"): "encode_stream: padding width through `match misaligned() { 0 => 8, n => n }`",
     ("ben-C16-3", "C02"): "compress_literals: nested if-let rewritten as nested match with guard",
     ("ben-C16-3", "C14"): "compress_literals: nested if-let rewritten as nested match with guard",
-    ("ben-C18-3", "C18"): "io_nostd read_exact / write_all / read_to_end restructured (early Ok(()), `let n = match .. continue`)",
 }
